@@ -11,8 +11,9 @@ sid, patch, demo, prop, change, needs = sys.argv[1:7]
 checks = [prop] + sys.argv[7:]
 d = os.path.join(os.path.dirname(os.path.dirname(os.path.abspath(__file__))), 'seeded', sid)
 os.makedirs(d, exist_ok=True)
-shutil.copy(patch, os.path.join(d, 'patch.diff'))
-shutil.copy(demo, os.path.join(d, 'demo.py'))
+for src, name in ((patch, 'patch.diff'), (demo, 'demo.py')):
+    if os.path.abspath(src) != os.path.join(d, name):
+        shutil.copy(src, os.path.join(d, name))
 r = subprocess.run([os.path.join(os.path.dirname(__file__), 'seedtest.py'), os.path.join(d, 'patch.diff'),
                     os.path.join(d, 'demo.py')] + checks, capture_output=True, text=True)
 try:
